@@ -385,4 +385,23 @@ PROPS = {
             rapid("c13", "TestPropConcurrent", quick=(500, 6), thorough=(20000, 14), race=True, shrinktime="20s"),
         ],
     },
+    "C08": {
+        "level": "exploration",
+        "rule": "rapid histories (up to 40 steps) of commands issued one at a time by 2-4 raw sessions (no client library in the loop) against a "
+                "real imapserver + imapmemserver with two shared mailboxes: APPEND, SELECT/EXAMINE, STORE/UID STORE (+/-/set, .SILENT, \\Deleted "
+                "and other flags), EXPUNGE, UID EXPUNGE, COPY/MOVE and UID forms (also onto the selected mailbox), FETCH/UID FETCH, SEARCH/UID "
+                "SEARCH (plain and RETURN forms), NOOP, IDLE..DONE, CLOSE, UNSELECT, disconnect; number sets mix static numbers (also out of "
+                "range), ranges, '*' and n:*; sessions are left stale on purpose. Oracle: a per-connection observer fed by an independent "
+                "tokenizer reconstructs the announced message list (count from EXISTS/EXPUNGE, UIDs from FETCH) and checks after every line: "
+                "1 <= n <= announced count for every FETCH/EXPUNGE/SEARCH/ESEARCH number, no EXPUNGE while answering non-UID FETCH/STORE/SEARCH, "
+                "the count never shrinks except by EXPUNGE, a sequence number never changes UID; after every NOOP and at the end of the "
+                "history the reconstructed list must equal the mailbox's actual list read by a freshly selecting oracle connection, and "
+                "FETCH 1:* (UID) on the session must rebuild exactly that list (each removal reported exactly once follows from equality). "
+                "Non-trivial: a history in which at least one command was started by a session with updates pending for it; distinct by history.",
+        "assumptions": ["commands are issued one at a time (the property's quantifier); concurrency is C14",
+                        "the 'actual list' is what a connection that selects the mailbox afresh is told; the mailbox's own semantics are C09"],
+        "units": [
+            rapid("c08", "TestPropViews", quick=(700, 8), thorough=(20000, 16), steps=40),
+        ],
+    },
 }
